@@ -19,7 +19,7 @@ WORKERS = {"quick": 4, "thorough": 16}
 WTESTS = {"groups": ['descriptor_format'], "tests": ['tests/utils', 'tests/decay']}
 REQUIRED = {"nesting-depth>=3": 50, "reused-object-sequentially": 50, "reentrant-object": 50, "object-created-before-set_config": 50,
             "leave-by-exception-at-depth>=2": 50, "enter-invalid-context": 50, "render": 500,
-            "valid-pattern-with-repeated-placeholder": 20, "kept-format-handed-back": 20, "render:parser-descriptors": 100,
+            "valid-pattern-with-repeated-placeholder": 20, "kept-format-handed-back": 20, "config-assigned-by-hand-keys-in-other-order": 20, "leave-by:KeyboardInterrupt": 20, "leave-by:GeneratorExit": 20, "leave-by:SystemExit": 20, "leave-by:_Custom": 20, "render:parser-descriptors": 100,
             **{f"invalid:{k}": 20 for k in ("missing-mother", "missing-daughters", "extra-named", "positional", "attribute", "index", "nested-in-spec", "second-only", "repeated-mother-no-daughters", "repeated-daughters-no-mother", "repeat-inside-spec-no-daughters", "blank-in-name", "blank-in-name-second", "tab-in-name", "empty-second", "empty-first")},
             "C14.exit.restores_entry_format": 500, "C14.set_config.rejected_leaves_format": 500}
 EXHAUSTIVE_NOTE = "every well-nested history over the reduced alphabet {N,E,F,L,X,V,I,B,R} of length exactly L (7 quick, 8 thorough) -- all shorter ones are prefixes"
@@ -56,6 +56,10 @@ INVALID = {
     "empty-first": ("", DEFAULT[1]),
 }
 INV_KEYS = list(INVALID)
+
+
+class _Custom(BaseException):
+    pass
 
 
 class Model:
@@ -140,8 +144,10 @@ class Exec:
             else:
                 if len(m.saved) >= 1:
                     self.ctx.hit("leave-by-exception-at-depth>=2")
-                e = ValueError("boom")
-                self.real[j].__exit__(ValueError, e, None)
+                # any exception leaves a with-block, also the ones that do not derive from Exception
+                et = (ValueError, KeyError, KeyboardInterrupt, GeneratorExit, SystemExit, _Custom)[(i + j) % 6]
+                self.ctx.hit("leave-by:" + et.__name__)
+                self.real[j].__exit__(et, et("boom"), None)
         elif k == "set":
             m.cur = VALID[op[1]]
             for q in self.set_since_new:
@@ -163,6 +169,12 @@ class Exec:
                     self.fail("enter:invalid-accepted:" + op[1], f"context with pattern {INVALID[op[1]]!r} was entered", hist, i)
             except ValueError:
                 pass
+        elif k == "assign":
+            # the documented class variable assigned by hand -- keys in the other order: the roles of the two patterns are the keys', not the positions'
+            pat = VALID[op[1]]
+            DF.config = {"sub_decay_pattern": pat[1], "decay_pattern": pat[0]}
+            m.cur = pat
+            self.ctx.hit("config-assigned-by-hand-keys-in-other-order")
         elif k == "keep":
             # the caller keeps "the format in force" by taking the documented class variable as it is ...
             self.kept = DF.config
@@ -281,6 +293,8 @@ def random_history(rng, n):
             hist.append(("set_invalid", rng.choice(INV_KEYS)))
         elif r < 0.88:
             hist.append(("enter_invalid", rng.choice(INV_KEYS)))
+        elif r < 0.895:
+            hist.append(("assign", rng.randrange(len(VALID))))
         elif r < 0.91:
             hist.append(("keep",))
         elif r < 0.94:
